@@ -281,6 +281,17 @@ class ThreadAgent:
         self.t.start()
 
     def _run(self):
+        try:
+            self._loop()
+        finally:
+            # whoever stops the agent (`stop = True` or close()) gets the descriptor back: thousands of agents are
+            # created in a thorough run
+            try:
+                self.sock.close()
+            except OSError:
+                pass
+
+    def _loop(self):
         import time
         while not self.stop:
             try:
